@@ -354,6 +354,37 @@ func (w *c02World) aclAllows(t *c02Tok, reqNS, abs, op string, sudo bool) (strin
 	return "allow", pat
 }
 
+// locate: the mount whose path is the longest prefix of the namespace-qualified
+// path ("foo" also means "foo/"), the backend-relative path and the index of the
+// backend path pattern it matches (-1: none).
+func (w *c02World) locate(full string) (*c02Mount, string, int) {
+	find := func(p string) *c02Mount {
+		var best *c02Mount
+		for _, m := range w.Mounts {
+			if m.Mounted && strings.HasPrefix(p, m.Abs) && (best == nil || len(m.Abs) > len(best.Abs)) {
+				best = m
+			}
+		}
+		return best
+	}
+	m := find(full)
+	bp := ""
+	if m != nil {
+		bp = full[len(m.Abs):]
+	} else if !strings.HasSuffix(full, "/") {
+		m = find(full + "/")
+	}
+	if m == nil {
+		return nil, "", -1
+	}
+	for i, p := range c02Patterns {
+		if p.re.MatchString(bp) {
+			return m, bp, i
+		}
+	}
+	return m, bp, -1
+}
+
 // judge is the reference authoriser.
 func (w *c02World) judge(q *c02Req, now time.Time) *c02Verdict {
 	v := &c02Verdict{Op: q.Op}
@@ -398,33 +429,9 @@ func (w *c02World) judge(q *c02Req, now time.Time) *c02Verdict {
 	}
 
 	// which mount receives the path
-	find := func(p string) *c02Mount {
-		var best *c02Mount
-		for _, m := range w.Mounts {
-			if m.Mounted && strings.HasPrefix(p, m.Abs) && (best == nil || len(m.Abs) > len(best.Abs)) {
-				best = m
-			}
-		}
-		return best
-	}
-	m := find(full)
-	bp := ""
-	if m != nil {
-		bp = full[len(m.Abs):]
-	} else if !strings.HasSuffix(full, "/") {
-		if m = find(full + "/"); m != nil {
-			bp = ""
-		}
-	}
-	pat := -1
+	m, bp, pat := w.locate(full)
 	if m != nil {
 		v.Mount, v.MountAbs, v.BPath = m, m.Abs, bp
-		for i, p := range c02Patterns {
-			if p.re.MatchString(bp) {
-				pat = i
-				break
-			}
-		}
 	}
 	// create/update resolved by the backend's existence check
 	if q.Op == "create" || q.Op == "update" {
@@ -470,6 +477,14 @@ func (w *c02World) judge(q *c02Req, now time.Time) *c02Verdict {
 	acl, aclWhy := "deny", "forged token"
 	if !q.Tok.Forged || q.Tok.Policies != nil {
 		acl, aclWhy = w.aclAllows(q.Tok, ns, full, v.Op, rootPath)
+		if m == nil && (q.Op == "create" || q.Op == "update") {
+			// not a recording mount: whether the backend has an existence check (which
+			// turns the write into create or update) is not known to the reference
+			other, _ := w.aclAllows(q.Tok, ns, full, "create", rootPath)
+			if other != acl {
+				acl, aclWhy = "unknown", "create/update resolution of a backend the harness does not model"
+			}
+		}
 	}
 	switch {
 	case live == "dead":
